@@ -1595,6 +1595,13 @@ class Parameter(_ParameterBase):
         update_ref = None
         if obj is not None and self.allow_refs and obj._param__private.initialized:
             syncing = name in obj._param__private.syncing
+            if (self.constant or self.readonly) and (
+                    iscoroutinefunction(val) or inspect.isgeneratorfunction(val)
+                    or resolve_ref(val, self.nested_refs)):
+                # Linking the parameter modifies it, whatever the reference
+                # resolves to at the moment (if it resolves at all)
+                raise TypeError("%s parameter '%s' cannot be modified" % (
+                    'Read-only' if self.readonly else 'Constant', name))
             ref, deps, val, is_async = obj.param._resolve_ref(self, val)
             refs = obj._param__private.refs
             # The link is only installed (or removed) once the value has
